@@ -1857,6 +1857,17 @@ sentence_t* alloc_sentence () {
   return p;
 }
 
+#ifdef NEOLITH_VERIF
+/* read-only accessor for verification: sentences in use (allocated minus the free list) */
+int verif_live_sentences (void) {
+  int n = tot_alloc_sentence;
+  sentence_t *p;
+  for (p = sent_free; p; p = p->next)
+    n--;
+  return n;
+}
+#endif
+
 void free_sentence (sentence_t * p) {
   /* Free object reference first (object might be destructed but not yet freed) */
   if (p->ob)
